@@ -100,3 +100,47 @@ CHECKS['C13'] = dict(
                  'after any error call-back the history ends (MIR promises nothing about a context after an error)',
                  'single client, no concurrency: the schedule is the order of load / register / link events'],
 )
+
+CHECKS['C16'] = dict(
+    harness='lcsim', variant='plain', level='exploration', default_seed=1,
+    tiers={
+        'quick': dict(count=12000, mode='C16', budget_s=400),
+        'thorough': dict(count=400000, mode='C16', budget_s=2400),
+    },
+    rule=('run = one seeded history on a generated multi-module template program: modules created (scan / c2mir / binary read), loaded and '
+          'linked in dependency-closed steps with interface interp / eager gen / lazy gen per step (so later steps call and inline functions '
+          'that earlier steps have already generated), explicit MIR_gen in any order and repeated, MIR_gen_set_optimize_level between events, '
+          'generator sessions finished and re-initialised, calls through public addresses (which trigger lazy generation) and MIR_interp before '
+          'and after generation.  Oracles: MIR_output_item text of every function an event enters is byte-identical (labels renamed by first '
+          'appearance) before and after the event; MIR_gen returns the same address every time and it equals the item address; public addresses '
+          'never change; every result and external-call log equals the program model, also for modules linked later that call/inline generated '
+          'functions.  non-trivial = at least 3 ops AND a code write window was opened or a live block moved; distinct = hash of (knobs, program, ops).'),
+    probes=['gen_explicit', 'gen_repeated', 'gen_lazy_on_first_call', 'interp_after_generation', 'text_compared_equal', 'opt_level_0', 'opt_level_1',
+            'opt_level_2', 'opt_level_3', 'link_with_3_pending_modules', 'module_via_c2mir', 'ext_reentered_mir', 'code_multi_page_write_windows'],
+    components_real=_LC_REAL, components_stubbed=_LC_STUB,
+    assumptions=['whole-function generation only (the lazy basic-block interface is outside the statement)',
+                 'for eager generation at link the "before" text does not exist in the API; the text oracle covers explicit and lazy generation and interpretation, eager generation is covered by the behavioural oracles (results, later inlining)',
+                 'known finding (open): a function with an lref label table cannot be run by both engines (shared table); programs with lref tables keep to one engine family except in probing runs',
+                 'program-level generator defects (the plain history of the same program fails the same way) are side findings, not verdicts'],
+)
+
+CHECKS['C03'] = dict(
+    harness='lcsim', variant='plain', level='exploration', default_seed=1,
+    tiers={
+        'quick': dict(count=12000, mode='C03', budget_s=400),
+        'thorough': dict(count=400000, mode='C03', budget_s=2400),
+    },
+    rule=('run = one seeded history on a generated multi-module template program (recursion and mutual recursion across modules, indirect calls '
+          'through ref data, computed gotos through laddr/jmpi and lref tables, externals that re-enter MIR through another function\'s public '
+          'address): each link step picks its own interface among interp / eager gen / lazy gen / lazy basic-block gen, so one program mixes '
+          'them; clients call public addresses taken once and reused, and MIR_interp, in a seeded order (first call may arrive via recursion, '
+          'call-back or indirect call); code placement near / packed far / 4GB-spread / alternating forces both thunk and call forms. Oracle: '
+          'every result and the global external-call log equal the program model (five-way agreement by construction), public addresses never '
+          'change, never a crash.  non-trivial and distinct as for C16.'),
+    probes=['link_iface_interp', 'link_iface_gen', 'link_iface_lazy', 'link_iface_lazy_bb', 'ext_reentered_mir', 'gen_lazy_on_first_call',
+            'interp_after_generation', 'address_calls', 'interp_runs', 'code_multi_page_write_windows'],
+    components_real=_LC_REAL, components_stubbed=_LC_STUB,
+    assumptions=['programs come from one template family: the check decides the history / configuration / placement dimension of the statement, not the program dimension (a defect that the plain history of the same program shows too is a side finding)',
+                 'known findings (open): lref label tables are shared between interpreter and generator; lazy-bb stubs and the interpreter share func_item->data; lazy-bb thunks reach only +-2GB; the lazy-bb generator consumes the MIR of the functions it enters',
+                 'the public address of a function is taken after the link step that sets its interface (MIR assigns it at load)'],
+)
